@@ -17,6 +17,12 @@ CLAIMED = {
     "C04": ("fault_enumeration",
             "Stream shape: Writer over absent/shorter/equal/longer prior content with random chunkings, read back through ReadFile and Reader with random buffer sizes and legal short reads, on memory, disk, encrypted (both ciphers, over both bases) and cache backends. Copy shape: random trees copied between every backend pair with StreamCopy / Copier / Copy (real fsloop under the seeded scheduler), destination pre-populated with longer files; a dry run counts the I/O positions on both sides, then every position x applicable fault kind (op-error, read-error, write-error, torn-write, close-error; above the stack or below the encryption) is injected once under the dry run's choices: helper returned nil => destination is a complete byte-exact copy.",
             "Every I/O position of each sampled copy is faulted (every k-th above 80); cases are sampled. No fault below diskfs (no seam)."),
+    "C02": ("exploration",
+            "The C01 history generator drives a memory and a disk filespace (each optionally behind a child view) in lock-step, each against its own copy of the model: inside the statement's preconditions both must give the model's result class and equal bytes and equal the model tree after every step; outside them no panic and no change outside the addressed paths (host directory above the disk root included), after which that side's model is re-synchronised.",
+            "Sampling of histories; the disk side runs on a private directory of the real file system (no seam below diskfs, no faults)."),
+    "C05": ("fault_enumeration",
+            "Seeded configurations (cipher, base backend, secret, salt, host binding, plaintext, write path, prior stored version); round trip through a second instance by ReadFile and Reader; marker never in stored bytes; two writes differ; then every truncation length and every single-byte flip of the stored bytes (every k-th above 320 bytes), the emptied file, and readers with another secret or salt must all be answered with an error, never data, never a panic, never a stream left open; name-space history through the encrypted view refined against the model.",
+            "All truncations and flips of each sampled file are enumerated; files are sampled. crypto/rand stays real."),
     "C06": ("fault_enumeration",
             "Seeded cases (initial remote tree, 1-25 cache operations on overlapping paths through the cache and its child views, intermediate Commits) run under the simulator (directory copies run a real fsloop); fault-free execution: remote untouched before Commit, remote = model (initial remote + accepted operations applied directly) after; then the final Commit is re-executed once for EVERY remote I/O position x applicable fault kind (op-error, write-error, torn-write, close-error) under the recorded choices of the dry run: the Commit must report the failure and a following fault-free Commit must bring the remote to the model tree. Journal iteration orders inside Commit are seeded choices.",
             "Every position of the last Commit of each sampled case is faulted; cases themselves are sampled. The model applies an operation only if the cache accepted it; histories are cut where the statement does not define the result."),
